@@ -476,6 +476,12 @@ func genRaw(t *rapid.T) rawCase {
 	switch what {
 	case "joinaccept28":
 		b[27] = byte(rapid.IntRange(0, 1).Draw(t, "cflisttype"))
+		if rapid.IntRange(0, 7).Draw(t, "emptycflist") == 0 {
+			// a CFList that is present and defines nothing: five unused slots / no channel bit set
+			for i := 12; i < 27; i++ {
+				b[i] = 0
+			}
+		}
 	case "cflist":
 		b[15] = byte(rapid.IntRange(0, 1).Draw(t, "cflisttype"))
 	case "rejoin02":
@@ -523,6 +529,10 @@ func checkRaw(c rawCase) evid.Outcome {
 		// one field pushed out of its range: the encoder refuses, or whatever it emits still has the specification's
 		// length with every other field in its place
 		valid, verr := p.MarshalBinary()
+		// the decoded payload goes out again with the length it came in with and every defined bit where it was
+		if verr == nil && !bytes.Equal(valid, want.MACPayloadBytes()) {
+			return evid.Fail("the join-accept payload decoded from %x re-encodes to %x (%d bytes), specification layout of the decoded fields gives %x (%d bytes)", []byte(b), valid, len(valid), want.MACPayloadBytes(), len(want.MACPayloadBytes()))
+		}
 		if verr == nil {
 			q := p
 			var lo, hi int // bytes the field occupies
